@@ -1,0 +1,45 @@
+//go:build verif
+
+package snowflake
+
+import "time"
+
+// Hooks for the verification machinery in /verif (properties C06, C07). Add-only; compiled
+// only with the build tag `verif`.
+
+// VerifSetNow replaces the clock read by HardNode.Generate; the returned function restores it.
+func VerifSetNow(f func() time.Time) (restore func()) {
+	var old = _HookNow
+	_HookNow = f
+	return func() { _HookNow = old }
+}
+
+// VerifSetConfig sets the layout globals directly (Setup cannot reset them to arbitrary
+// values: UseNodeMode normalises, NodeAtLowest only switches on); the returned function
+// restores the previous configuration.
+func VerifSetConfig(epoch int64, nodeBits uint8, nodeAtLowest bool) (restore func()) {
+	var oe, ob, ol = _epoch, _nodeBits, _nodeAtLowest
+	_epoch, _nodeBits, _nodeAtLowest = epoch, nodeBits, nodeAtLowest
+	return func() { _epoch, _nodeBits, _nodeAtLowest = oe, ob, ol }
+}
+
+// VerifConfig reads the layout globals.
+func VerifConfig() (epoch int64, nodeBits uint8, nodeAtLowest bool) {
+	return _epoch, _nodeBits, _nodeAtLowest
+}
+
+// VerifNodeState reads the internal state of a node made by NewNode or NewMonoNode
+// (epoch is 0 for a MonoNode, whose epoch is a time.Time).
+func VerifNodeState(n Node) (epoch, timeMs, node, step int64, ok bool) {
+	switch x := n.(type) {
+	case *HardNode:
+		x.mu.Lock()
+		defer x.mu.Unlock()
+		return x.epoch, x.time, x.node, x.step, true
+	case *MonoNode:
+		x.mu.Lock()
+		defer x.mu.Unlock()
+		return 0, x.time, x.node, x.step, true
+	}
+	return 0, 0, 0, 0, false
+}
